@@ -128,12 +128,30 @@ class Repo:
         for fn in sorted(os.listdir(self.src)):
             if fn.endswith(".py"):
                 self._load(fn)
+        self._strip_pair_order_wrappers()
         self.renamed: Dict[str, Dict[str, str]] = {}
         self.reference: Dict[str, Module] = {}
         self.inlined: Dict[str, List[str]] = {}
         self._shape: Dict[Tuple[str, str], str] = {}
         if align:
             self._align()
+
+    def _strip_pair_order_wrappers(self) -> None:
+        """`for i, j in sorted(tree.query_pairs(r))` is read as a loop over the query itself by every rule that does not care about
+        the visiting order (radius, roles, skips ...); the wrapper is remembered on the loop node (`_order_wrapper`: 'sorted' fixes
+        the order by point index, 'list' / 'tuple' only materialise the set) for the rule that does care (C05 `contact-visit-order`)."""
+        for m in self.modules.values():
+            self._strip_tree(m.tree)
+
+    @staticmethod
+    def _strip_tree(tree: ast.AST) -> None:
+        if True:
+            for n in ast.walk(tree):
+                if isinstance(n, (ast.For, ast.comprehension)) and isinstance(n.iter, ast.Call) and isinstance(n.iter.func, ast.Name) and n.iter.func.id in ("sorted", "list", "tuple") and len(n.iter.args) == 1 and not n.iter.keywords:
+                    inner = n.iter.args[0]
+                    if isinstance(inner, ast.Call) and isinstance(inner.func, ast.Attribute) and inner.func.attr == "query_pairs":
+                        n._order_wrapper = n.iter.func.id  # type: ignore[attr-defined]
+                        n.iter = inner
 
     def _align(self) -> None:
         """Rename locals to the names of the reference copy (sa/align.py): rules become independent of local names."""
@@ -149,6 +167,7 @@ class Repo:
             try:
                 with open(path) as f:
                     ref = Module(name, path, path, "", ast.parse(f.read()), "")
+                self._strip_tree(ref.tree)
                 ref._index()
             except SyntaxError:
                 continue
